@@ -228,13 +228,37 @@ EDGE = [
 ]
 
 
+def _exhaustive(tier):
+    """small universes, every member: lag vectors / blocks over a few small integers"""
+    import itertools
+    q = tier == "quick"
+    out = []
+    vals = (-1, 0, 1, 2) if q else (-2, -1, 0, 1, 2, 3)
+    for n in (1, 2, 3):
+        for r in itertools.product(vals, repeat=n):
+            if q and n == 3 and r[0] <= 0:
+                continue
+            for order in range(0, 4):
+                out.append({"entry": "levinson", "r": list(r), "order": order, "num": "int",
+                            "fam": "exhaustive", "seq": "list"})
+    bvals = (-1, 0, 1) if q else (-1, 0, 1, 2)
+    for n in ((2, 3, 4) if q else (2, 3, 4, 5)):
+        for b in itertools.product(bvals, repeat=n):
+            for order in (1, 2):
+                if order < n:
+                    out.append({"entry": "kcovar", "blk": list(b), "order": order, "num": "int"})
+            if n <= 3:
+                out.append({"entry": "kautocor", "blk": list(b), "order": n - 1, "num": "int"})
+    return out
+
+
 def generate(rng, tier, scale=1):
     q = tier == "quick"
-    n_lev = (700 if q else 12000) * scale
-    n_ka = (300 if q else 5000) * scale
-    n_kc = (400 if q else 6000) * scale
-    n_tab = (120 if q else 1500) * scale
-    cases = list(EDGE) if scale == 1 else []
+    n_lev = (700 if q else 20000) * scale
+    n_ka = (300 if q else 9000) * scale
+    n_kc = (400 if q else 10000) * scale
+    n_tab = (120 if q else 2000) * scale
+    cases = (list(EDGE) + _exhaustive(tier)) if scale == 1 else []
     cases += _lev_cases(rng, n_lev)
     cases += _blk_cases(rng, n_ka, "kautocor")
     cases += _blk_cases(rng, n_kc, "kcovar")
@@ -371,7 +395,7 @@ def _cmp_filter(c, io, drv, inputs, order, scale, spec_of):
     vals = _trace_vals(drv, inputs)
     exact = all(isinstance(v, F) for v in vals) and _exact_regime(vals, (order or 0) + 2)
     cond = _conditioning(drv, scale)
-    info = {"regime": "exact" if exact else "float", "skipped": False}
+    info = {"regime": "exact" if exact else "float", "skipped": False, "passes": len(drv.get("trace", []))}
     tol = 0 if exact else TOL
     safe = exact or cond >= 1e-4
 
@@ -555,12 +579,17 @@ def tally(eng, c, io):
                   "order=len-1" if o == n - 1 else "order>=len (zero ext)"))
         if "a" in io:
             eng.count("lev_returned_len_vs_order", "trimmed" if o is not None and len(io["a"]) < o + 1 else "full")
+        elif info.get("passes"):
+            eng.count("lev_exit", "%s at pass %d" % (io["err"], min(info["passes"], 9)))
     elif e in ("kautocor", "kcovar"):
         o = c["order"]
         n = len(c["blk"])
         eng.count(e + "_order", "None" if o is None else min(o, 10))
         eng.count(e + "_order_vs_len", "None" if o is None else ("order<len" if o < n else "order>=len"))
         eng.count(e + "_blklen", min(n // 4 * 4, 28))
+        if "err" in io:
+            where = "structural (lengths)" if not info.get("passes") else "pass %d" % min(info["passes"], 7)
+            eng.count(e + "_exit", "%s at %s" % (io["err"], where))
     else:
         eng.count(e + "_size", min(len(c.get("blk", c.get("vect", []))), 16))
 
